@@ -65,6 +65,11 @@ def abs_entries_from_text(text):
     return sorted(out), pm['ok']
 
 
+def long_path(n):
+    """n > 0: that many ASCII letters; n < 0: -n CJK characters (three bytes each: few characters, many bytes)"""
+    return 'ignored-' + ('x' * n if n > 0 else 'xx' + '\u6f22' * (-n))
+
+
 def one_case(args):
     case, homes, seed = args
     from . import gem, gpgenv
@@ -100,7 +105,7 @@ def one_case(args):
         top_ents = [fm.make_entry('DATA', p, d, ['SHA256']) for p, d in sorted(files.items()) if '/' not in p]
         top_ents.append(fm.make_entry('MANIFEST', subname, subdata, ['SHA256']))
         if case.get('longline'):
-            top_ents.append({'tag': 'IGNORE', 'path': 'ignored-' + 'x' * case['longline'], 'size': 0, 'ck': {}})
+            top_ents.append({'tag': 'IGNORE', 'path': long_path(case['longline']), 'size': 0, 'ck': {}})
         toptext = fm.manifest_bytes(top_ents).decode('utf8')
         if case['was_signed']:
             toptext = full.clearsign(toptext, keyid=homes['a'])
@@ -199,7 +204,8 @@ def one_case(args):
                     subs.append({'classes': [drv_framing.classify_line(l) for l in ls]})
         usable = case['key_usable'] is True and case['keyid'] != 'missing'
         return [{'signopt': case['signopt'], 'was_signed': case['was_signed'], 'key_usable': usable,
-                 'signable': not (case.get('longline') and case['longline'] + 16 > 16384),
+                 'signable': not (case.get('longline')
+                                  and len(('IGNORE ' + long_path(case['longline'])).encode('utf8')) >= 16384),
                  'explicit_key': case['keyid'] != 'default', 'end': obs['end'], 'exc': obs['exc'],
                  'top': top, 'subs': subs, 'meta': dict(case)}]
     finally:
@@ -236,6 +242,6 @@ def all_cases(rng, thorough):
     for c in cases:
         if not c['was_signed'] and c['key_usable'] is True and c['keyid'] != 'missing' and not c['sub_signed'] \
                 and (thorough or c['signopt'] == 'on' or rng.random() < 0.3):
-            more.append(dict(c, longline=rng.choice([16500, 19990, 20100, 30000]),
+            more.append(dict(c, longline=rng.choice([16500, 19990, 20100, 30000, -5000, -5460, -7000]),
                              via='api' if c['rename_top'] else rng.choice(['api', 'cli'])))
     return cases + more
